@@ -8,7 +8,11 @@ sys.path.insert(0, os.path.join(os.path.dirname(__file__), ".."))
 
 
 def _n(tier, broken, quick, thorough):
-    return thorough if (tier == "thorough" or broken) else quick
+    if tier == "thorough" or broken:
+        return thorough
+    if tier == "escalated":
+        return min(thorough, 6 * quick)
+    return quick
 
 
 def c10(seed, tier, broken):
@@ -103,7 +107,7 @@ def c11(seed, tier, broken):
     from search import groups as G
 
     big = tier == "thorough" or broken
-    w, ev, worst = G.search_invariants(seed, 40 if big else 4, 10000 if big else 2500)
+    w, ev, worst = G.search_invariants(seed, 40 if big else (16 if tier == "escalated" else 4), 10000 if big else 2500)
     found = []
     if w:
         w["match"] = "invariant:%s" % w["kind"]
@@ -323,7 +327,7 @@ def c15(seed, tier, broken):
     from harness import purity as P
 
     big = tier == "thorough" or broken
-    r = P.run(seed + 7919, 400 if big else 30, 50 if big else 40)
+    r = P.run(seed + 7919, 400 if big else (180 if tier == "escalated" else 30), 50 if big else 40)
     found = []
     for d in r["disagreements"][:1]:
         d = dict(d)
